@@ -65,7 +65,11 @@ func (c10) Gen(rng *rand.Rand, tier string, k int) *Case {
 			if rng.Intn(6) == 0 {
 				name = "Z"
 			}
-			c.Ops = append(c.Ops, OpSpec{Op: "getsince", Name: name, From: rng.Intn(next[name]+3) - 1, Half: rng.Intn(3) == 0})
+			zone := 0
+			if rng.Intn(4) == 0 {
+				zone = []int{9, -5, 1, -11, 13}[rng.Intn(5)] // the same instant seen from another zone (callers pass time.Local)
+			}
+			c.Ops = append(c.Ops, OpSpec{Op: "getsince", Name: name, From: rng.Intn(next[name]+3) - 1, Half: rng.Intn(3) == 0, Zone: zone})
 		case x < 9:
 			if rng.Intn(6) == 0 {
 				name = "Z"
@@ -76,6 +80,19 @@ func (c10) Gen(rng *rand.Rand, tier string, k int) *Case {
 		}
 	}
 	c.Cap = rng.Intn(3)
+	if c.Impl == "sql" && rng.Intn(4) == 0 {
+		// fault-injecting configuration: the database rejects the k-th INSERT of the history
+		c.Faults = append(c.Faults, FaultSpec{Kind: "sql-exec-error", At: 1 + rng.Intn(8)})
+	}
+	if c.Impl == "file" && rng.Intn(4) == 0 {
+		// fault-injecting configuration: the disk is full after k more bytes on the n-th open of an
+		// asset file, or the n-th close of a written file fails
+		if rng.Intn(3) > 0 {
+			c.Faults = append(c.Faults, FaultSpec{Kind: "fs-write-budget", Name: ".csv", At: rng.Intn(300), N: 1 + rng.Intn(2*n)})
+		} else {
+			c.Faults = append(c.Faults, FaultSpec{Kind: "fs-close-error", Name: ".csv", N: 1 + rng.Intn(n)})
+		}
+	}
 	c.Policy = genPolicy(rng)
 	return c
 }
@@ -141,7 +158,12 @@ func (c10) Run(c *Case, st *Stats) []Violation {
 	dbName := ""
 	var sdb *simDB
 	clientDone := false
+	plan := fsPlan(c.Faults)
+	ioFault := false
 	out := simulate(SimOpts{Policy: c.Policy, Record: c.Record, MaxSteps: 2_000_000}, func(s *simrt.Sim) {
+		if plan != nil {
+			s.SetFaults(plan)
+		}
 		simrt.GoKind("client", func() {
 			defer func() { clientDone = true }()
 			var repo asset.Repository
@@ -162,7 +184,12 @@ func (c10) Run(c *Case, st *Stats) []Violation {
 				repo = asset.NewFileSystemRepository(dir)
 			case "sql":
 				dbName = fmt.Sprintf("db-%d-%d", os.Getpid(), runDirSeq.Add(1))
-				sdb = &simDB{}
+				sdb = &simDB{failExec: map[int]bool{}}
+				for _, f := range c.Faults {
+					if f.Kind == "sql-exec-error" {
+						sdb.failExec[f.At] = true // the database rejects the At-th INSERT of the history
+					}
+				}
 				simDBsMu.Lock()
 				simDBs[dbName] = sdb
 				simDBsMu.Unlock()
@@ -216,7 +243,35 @@ func (c10) Run(c *Case, st *Stats) []Violation {
 						simrt.Yield(-3, "prod-close")
 						close(ch)
 					})
-					if err := repo.Append(op.Name, ch); err != nil {
+					firedBefore := plan.TotalFired()
+					sqlBefore := 0
+					if sdb != nil {
+						sqlBefore = sdb.fired()
+					}
+					err := repo.Append(op.Name, ch)
+					if sdb != nil && sdb.fired() > sqlBefore {
+						// the database rejected an INSERT of this Append: the Append must not acknowledge
+						ioFault = true
+						st.Faults["sql-exec-error"] += sdb.fired() - sqlBefore
+						if err == nil {
+							add("io-error-not-reported", regime, fmt.Sprintf("op %d: Append(%s, %d snapshots) returned nil although the database rejected an INSERT", i, op.Name, op.N))
+						} else {
+							st.Probes["io-error-reported-by-append"]++
+						}
+						return
+					}
+					if fired := plan.TotalFired() - firedBefore; fired > 0 {
+						// the disk filled up (or the close failed) inside this Append: it may fail or lose
+						// what it had not acknowledged, but it must not acknowledge (return nil)
+						ioFault = true
+						if err == nil {
+							add("io-error-not-reported", regime, fmt.Sprintf("op %d: Append(%s) returned nil although %d injected write/close faults fired (%v)", i, op.Name, fired, plan.FiredKinds()))
+						} else {
+							st.Probes["io-error-reported-by-append"]++
+						}
+						return
+					}
+					if err != nil {
 						add("append-error", regime, fmt.Sprintf("op %d: %v", i, err))
 						return
 					}
@@ -236,6 +291,10 @@ func (c10) Run(c *Case, st *Stats) []Violation {
 						bound := base2000.AddDate(0, 0, op.From)
 						if op.Half {
 							bound = bound.Add(12 * time.Hour)
+						}
+						if op.Zone != 0 {
+							bound = bound.In(time.FixedZone(fmt.Sprintf("UTC%+d", op.Zone), op.Zone*3600))
+							st.Probes["getsince-bound-in-another-zone"]++
 						}
 						ch, err = repo.GetSince(op.Name, bound)
 						want = nil
@@ -340,6 +399,9 @@ func (c10) Run(c *Case, st *Stats) []Violation {
 		simDBsMu.Unlock()
 	}
 	st.noteSim(out)
+	for k, v := range plan.FiredKinds() {
+		st.Faults[k] += v
+	}
 	if c.Mode != "" {
 		st.Faults["pre-existing-"+c.Mode]++
 	}
@@ -354,7 +416,7 @@ func (c10) Run(c *Case, st *Stats) []Violation {
 		add("hang", "-", "the client never finished; "+stuckSummary(out.Stuck))
 		return vs
 	}
-	if len(vs) == 0 {
+	if len(vs) == 0 && !ioFault {
 		if lib := out.LibStuck(); len(lib) > 0 {
 			add("leak", "-", stuckSummary(lib))
 		}
